@@ -206,6 +206,48 @@ theorem archive_name_rule (fl : Flavour) (a : Str) :
         rw [hq]
         rw [if_pos (by simp [lower, Tape.str, hlx, hly])]
 
+open Moto.Disk in
+/-- **C19 (wrong archive extension: non-zero status, no file created or modified)**: whatever the action, the sources, the
+    destination and the bytes at the archive's path — when the archive's name is not accepted (`archive_name_rule`: what follows
+    its last dot is not the flavour's two letters) the run raises `ValueError` and neither writes a file, nor creates a directory,
+    nor prints anything; when it is accepted the run is the action itself (the command of all the other disk theorems) -/
+theorem wrong_extension_rejected (fl : Flavour) (w : Tape.World) (verbose : Bool) (archive : Str) (into : Option Str) (raw : Bytes) (srcs : List Str)
+    (h : checkArchiveName fl archive ≠ .ok ()) :
+    ∀ o ∈ [runCreate fl w verbose archive srcs, runAdd fl w verbose archive raw srcs, runList fl verbose archive raw,
+           runExtract fl verbose archive into raw],
+      (∃ m, o.status = .raised (.valueError m)) ∧ o.writes = [] ∧ o.mkdirs = [] ∧ o.out = [] := by
+  have herr : ∀ e, checkArchiveName fl archive = .error e → ∃ m, e = PyErr.valueError m := by
+    intro e hc
+    unfold checkArchiveName at hc
+    cases hr : rfindFrom 46 archive 0 with
+    | none => rw [hr] at hc; simp only at hc; injection hc with hc; exact ⟨_, hc.symm⟩
+    | some dp =>
+      rw [hr] at hc
+      cases fl <;>
+      · simp only at hc
+        split at hc
+        · cases hc
+        · injection hc with hc; exact ⟨_, hc.symm⟩
+  have hg : ∀ k, (∃ m, (gated fl archive k).status = .raised (.valueError m)) ∧ (gated fl archive k).writes = [] ∧
+      (gated fl archive k).mkdirs = [] ∧ (gated fl archive k).out = [] := by
+    intro k
+    unfold gated
+    cases hc : checkArchiveName fl archive with
+    | ok u => exact absurd hc h
+    | error e =>
+      obtain ⟨m, rfl⟩ := herr e hc
+      exact ⟨⟨m, rfl⟩, rfl, rfl, rfl⟩
+  intro o ho
+  simp only [List.mem_cons, List.mem_nil_iff, or_false] at ho
+  rcases ho with rfl | rfl | rfl | rfl <;> exact hg _
+
+open Moto.Disk in
+theorem right_extension_runs_the_action (fl : Flavour) (w : Tape.World) (verbose : Bool) (archive : Str) (into : Option Str) (raw : Bytes) (srcs : List Str)
+    (h : checkArchiveName fl archive = .ok ()) :
+    runCreate fl w verbose archive srcs = createCmd fl w verbose archive srcs ∧ runAdd fl w verbose archive raw srcs = addCmd fl w verbose archive raw srcs ∧
+    runList fl verbose archive raw = list fl verbose raw ∧ runExtract fl verbose archive into raw = extract fl verbose archive into raw := by
+  simp [runCreate, runAdd, runList, runExtract, gated, h]
+
 /-! ### the command line: every argument list, through the model of argparse (Model/Argparse.lean) -/
 
 open Moto.Argparse in
